@@ -607,11 +607,46 @@ HYG_OTHER = ["LEN", "CONC", "STR", "zxe7hgbnjs", "adapter", "length", "slices", 
 HYG_MANGLED = {n for n in HYG_ITEMS + HYG_GENERICS if "81608BFNA5" in n or "KO9Y329U2U" in n or "zxe7hgbnjs" in n}
 
 
+# identifiers that appear in the macro sources NOW but were not there when the lists above were read off
+# (`vlib/progs/c20_idents.txt` = every identifier of those files at that time): a renamed generic parameter, a
+# new helper constant or binder is tried as a caller's name as well (on the unchanged tree the list is empty)
+HYG_SOURCE_FILES = ["konst_kernel/src/collect_const.rs", "konst_kernel/src/string/string_for_konst.rs",
+                    "konst_kernel/src/slice/slice_for_konst.rs", "konst_kernel/src/iter/combinator_methods.rs",
+                    "konst_kernel/src/iter.rs", "konst/src/string/concatenation.rs"]
+_RUST_KW = set("as break const continue crate else enum extern false fn for if impl in let loop match mod move mut pub ref "
+               "return self Self static struct super trait true type unsafe use where while dyn async await".split())
+
+
+def source_idents():
+    from vlib import core
+    out = set()
+    for f in HYG_SOURCE_FILES:
+        p = os.path.join(core.REPO, f)
+        if os.path.exists(p):
+            txt = re.sub(r"//[^\n]*", "", open(p).read())
+            out |= set(re.findall(r"\b[A-Za-z_][A-Za-z0-9_]*\b", txt))
+    return {x for x in out if x not in _RUST_KW and not x.isdigit() and x != "_"}
+
+
+def discovered_idents():
+    base_file = os.path.join(os.path.dirname(__file__), "c20_idents.txt")
+    base = set(open(base_file).read().split()) if os.path.exists(base_file) else None
+    if base is None:
+        return []
+    new = sorted(source_idents() - base)
+    return new[:16]
+
+
+HYG_DISCOVERED = discovered_idents()
+
+
 def hyg_predict(macro, frag, decl, name):
     """what this generator expects rustc to say — used ONLY to decide how a case is compiled (inside
     the big programs or on its own); the verdict that is compared comes from rustc and from the Lean
     model (`Hyg.transparent`)"""
     val = decl != "tyAlias"
+    if name in HYG_DISCOVERED:
+        return False          # unknown: judged on its own; if it compiles its value is compared as well
     if macro == "from_iter":
         if val and name in ("CAP_KO9Y329U2U", "__func_zxe7hgbnjs", "__COUNT81608BFNA5", "__ARR81608BFNA5", "__STR81608BFNA5"):
             return False
@@ -650,7 +685,7 @@ def hygiene_cases(tier):
         c.hyg_scope = hyg_scope(macro, frag, decl, n)
         out.append(c)
 
-    names = HYG_ITEMS + HYG_GENERICS + HYG_BINDERS + HYG_OTHER
+    names = HYG_ITEMS + HYG_GENERICS + HYG_BINDERS + HYG_OTHER + [n for n in HYG_DISCOVERED if n not in HYG_ITEMS + HYG_GENERICS + HYG_BINDERS + HYG_OTHER]
     P = "68656c6c6f"     # "hello"
     for n in names:
         # ---------------- str_concat!($slice)
@@ -774,6 +809,16 @@ def hygiene_cases(tier):
             "cat.from_iter", " str 6162 6162 6162",
             f'{{ let items: Vec<&str> = (0..{n}.0).map(|_| "ab").collect(); format!("cat.from_iter.@FORM@ str{{}}", pieces(&items)) }}',
             "R", f'&String::from_iter((0..{n}.0).map(|_| "ab"))')
+        if n not in HYG_MANGLED:
+            # a plain `usize` constant as the argument of an adaptor: were the name captured by a const generic of
+            # the collector function, the program would still compile — to another value
+            # (added after seeded change C20-r4-1: the generic parameters renamed to `Ret`/`CAP`)
+            add("from_iter", "rem", "const", "take", n,
+                f'const {n}: usize = 2; const A3: &[&str] = &["foo", "bar", "baz"];',
+                f"const R: &str = string::from_iter!(A3, take({n}));",
+                "cat.from_iter", " str 666f6f 626172",
+                f'{{ let items: Vec<&str> = A3.iter().copied().take({n}).collect(); format!("cat.from_iter.@FORM@ str{{}}", pieces(&items)) }}',
+                "R", f"&String::from_iter(A3.iter().copied().take({n}))")
         add("from_iter", "rem", "fn", "closure", n,
             f"const fn {n}(s: &str) -> &str {{ s }} {AEB}",
             f"const R: &str = string::from_iter!(A, map(|s| {n}(*s)));",
